@@ -184,8 +184,22 @@ fn main() {
             let b = hex_bytes(&e.s("bytes")); let kind = e.s("kind"); let compressed = e.s("compressed") == "1";
             let mut rd: &[u8] = &b[..];
             macro_rules! de { ($T:ident, $outp:ident) => {{ match $T::deserialize(&mut rd, compressed) { Ok(p) => { tag = format!("Ok:{}", b.len() - rd.len()); $outp(&p, &mut out); } Err(_) => { tag = "Err".into(); } } }}; }
+            fn out_fr(x: &Fr, out: &mut Vec<String>) { let r = x.into_repr(); let mut s = String::from("0x"); for i in (0..4).rev() { s.push_str(&format!("{:016x}", r.0[i])); } out.push(s); }
             match kind.as_str() { "g1" => de!(G1, out_g1), "g2" => de!(G2, out_g2), "g1a" => de!(G1Affine, out_a1), "g2a" => de!(G2Affine, out_a2),
+                                  "fr" => de!(Fr, out_fr), "fq12" => de!(Fq12, o12),
                                   _ => { println!("{{\"error\":\"unknown kind\"}}"); return; } }
+        }
+        // ---- stream serialization: the bytes written after a 3-byte prefix already in the sink
+        "ser" => {
+            let kind = e.s("kind"); let compressed = e.s("compressed") == "1";
+            let mut w: Vec<u8> = vec![0xaa, 0xbb, 0xcc];
+            let r = match kind.as_str() {
+                "g1" => e.g1("p").serialize(&mut w, compressed), "g2" => e.g2("p").serialize(&mut w, compressed),
+                "g1a" => e.g1("p").into_affine().serialize(&mut w, compressed), "g2a" => e.g2("p").into_affine().serialize(&mut w, compressed),
+                "fr" => Fr::from_repr(fr_repr(&e.s("k"))).unwrap().serialize(&mut w, compressed),
+                "fq12" => e.fq12("x").serialize(&mut w, compressed),
+                _ => { println!("{{\"error\":\"unknown kind\"}}"); return; } };
+            tag = if r.is_ok() { bytes_hex(&w) } else { "Err".into() };
         }
         // ---- hash_to_field reductions
         "from_okm" => {
